@@ -36,6 +36,7 @@ type Opts struct {
 	DataIgnoreUnions bool // gomacro-data:"ignore" may sit on a directly union-typed field (C15)
 	ContainerMembers bool // union members that are named slices / maps of unions, outside the analysed file (C02)
 	StdNamedPkgs     bool // an imported user package may be named like a standard one (time)
+	ForeignUnions    bool // the analysed package may use unions (and types holding unions) of imported packages (analysis-only properties)
 	SameNamePromoted bool // a flattened embedded struct may have a field with the Go name of an outer field, under another JSON key
 	EmbedNamed       bool // structs may embed an exported named non-struct type (a regular field for encoding/json)
 	ShortModule      bool // the analysed package may have an import path of one or two elements (module at the root)
@@ -323,8 +324,11 @@ func (g *gen) drawType(pkg *Pkg, label string, c typeCtx) (*TypeRef, *tinfo) {
 				return false
 			}
 			// wrappers are only generated for unions of the analysed package: fields use local unions
-			if (ti.cat == "union" || ti.hasUnion) && ti.pkg != pkg && !g.o.Hostile {
+			if (ti.cat == "union" || ti.hasUnion) && ti.pkg != pkg && !g.o.Hostile && !g.o.ForeignUnions {
 				return false
+			}
+			if ti.pkg != pkg && g.o.ForeignUnions && (ti.cat == "union" || ti.hasUnion) {
+				g.o.class("feature:union_of_imported_package_reached")
 			}
 			return true
 		})
